@@ -864,5 +864,180 @@ theorem invH_inner (P : Params V) (T : Tables) (hcov : Coverage T = true) (hw : 
       have h2 : hw.held q.1 = true := by simpa [AL.contains] using this
       exact h2
 
+/-! ### cache-only changes -/
+
+theorem owedBy_congr {T : Tables} {w w' : World V} (h : SameStruct w w') {Q : List (Obj × List String)} {o : Obj}
+    {nm : String} (ho : OwedBy T w Q o nm) : OwedBy T w' Q o nm := by
+  obtain ⟨q, hq, hh⟩ := ho
+  refine ⟨q, hq, ?_⟩
+  rw [h.fuel, h.glyphs, h.regs]; exact hh
+
+/-- the structure stays, every cached entry was there before or is the fresh value of a registered name on an
+attached object: `InvH` stays -/
+theorem invH_caches (P : Params V) (T : Tables) (hw : HWorld V) (w' : World V) (hss : SameStruct hw.w w')
+    (hinv : InvH P T hw)
+    (hent : ∀ o nm sk v, (cacheOf w' o).get? nm sk = some v → (cacheOf hw.w o).get? nm sk = some v ∨
+      (v = fresh P T hw.w o nm sk ∧ attached hw.w o = true ∧
+        (facsOf T hw.w.regs o.cls).any (fun p => p.1 = nm) = true ∧ (acceptsKw nm = false → sk = none))) :
+    InvH P T { hw with w := w' } := by
+  refine ⟨?_, ?_, ?_, ?_, hinv.qheld, hinv.nodis⟩
+  · intro o nm sk v hv
+    simp only at hv ⊢
+    rcases hent o nm sk v hv with h | ⟨h, _⟩
+    · rcases hinv.coh o nm sk v h with hf | ho
+      · left; rw [hf]; unfold fresh; rw [viewOf_congr T hss]
+      · right; exact owedBy_congr hss ho
+    · left; rw [h]; unfold fresh; rw [viewOf_congr T hss]
+  · intro o ha nm sk
+    simp only at ha ⊢
+    rw [attached_congr hss] at ha
+    cases hc : (cacheOf w' o).get? nm sk with
+    | none => rfl
+    | some v =>
+      rcases hent o nm sk v hc with h | ⟨_, h, _⟩
+      · rw [hinv.loose o ha nm sk] at h; cases h
+      · rw [ha] at h; cases h
+  · intro o nm sk v hv
+    simp only at hv ⊢
+    rw [hss.regs]
+    rcases hent o nm sk v hv with h | ⟨_, _, h1, h2⟩
+    · exact hinv.creg o nm sk v h
+    · exact ⟨h1, h2⟩
+  · intro r hr
+    simp only at hr
+    rw [hss.regs] at hr
+    exact hinv.rdef r hr
+
+theorem invH_getOne (P : Params V) (T : Tables) (hw : HWorld V) (o : Obj) (name : String) (sk : SubKey)
+    (hinv : InvH P T hw) (hatt : attached hw.w o = true)
+    (hreg : (facsOf T hw.w.regs o.cls).any (fun p => p.1 = name) = true) (hkw : acceptsKw name = false → sk = none) :
+    InvH P T { hw with w := (getOne P T hw.w o name sk).1 } := by
+  refine invH_caches P T hw _ (getOne_struct P T hw.w o name sk) hinv ?_
+  intro o' nm sk' v hv
+  unfold getOne Cache.lookupOrStore at hv
+  cases hc : (cacheOf hw.w o).get? name sk with
+  | some v0 =>
+    simp only [hc] at hv
+    rw [cacheOf_setCache] at hv
+    by_cases e : o = o'
+    · subst e; simp only [if_true] at hv; exact Or.inl hv
+    · simp only [e, if_false] at hv; exact Or.inl hv
+  | none =>
+    simp only [hc] at hv
+    rw [cacheOf_setCache] at hv
+    by_cases e : o = o'
+    · subst e
+      simp only [if_true] at hv
+      rw [Cache.get?_store] at hv
+      by_cases e2 : name = nm ∧ sk = sk'
+      · obtain ⟨e3, e4⟩ := e2; subst e3; subst e4
+        simp only [and_self, if_true, Option.some.injEq] at hv
+        exact Or.inr ⟨hv.symm, hatt, hreg, hkw⟩
+      · rw [if_neg e2] at hv; exact Or.inl hv
+    · simp only [e, if_false] at hv; exact Or.inl hv
+
+theorem invH_shrink (P : Params V) (T : Tables) (hw : HWorld V) (o : Obj) (c' : Cache V) (hinv : InvH P T hw)
+    (hsub : ∀ nm sk v, c'.get? nm sk = some v → (cacheOf hw.w o).get? nm sk = some v) :
+    InvH P T { hw with w := setCache hw.w o c' } := by
+  refine invH_caches P T hw _ (sameStruct_setCache _ _ _) hinv ?_
+  intro o' nm sk v hv
+  rw [cacheOf_setCache] at hv
+  by_cases e : o = o'
+  · subst e; simp only [if_true] at hv; exact Or.inl (hsub _ _ _ hv)
+  · simp only [e, if_false] at hv; exact Or.inl hv
+
+theorem invH_get (P : Params V) (T : Tables) (hw : HWorld V) (o : Obj) (name : String) (kw : KwArgs)
+    (hinv : InvH P T hw) : InvH P T { hw with w := (doGet P T hw.w o name kw).1 } := by
+  have hself : InvH P T { hw with w := hw.w } := hinv
+  unfold doGet
+  by_cases h1 : exists? hw.w o = true
+  · by_cases h2 : (facsOf T hw.w.regs o.cls).any (fun p => p.1 = name) = true
+    · by_cases h3 : (!kw.isEmpty && !acceptsKw name) = true
+      · simpa [h1, h2, h3] using hself
+      · by_cases h4 : attached hw.w o = true
+        · have hkw : acceptsKw name = false → makeSubKey kw = none := by
+            intro ha
+            apply makeSubKey_none_of_nil
+            cases hk : kw.isEmpty with
+            | true => rfl
+            | false => exact absurd (by simp [hk, ha]) h3
+          simp only [h1, h2, h3, h4, Bool.not_true, Bool.false_eq_true, if_false]
+          cases hn : (if o = Obj.groups then nestedName name else none) with
+          | none =>
+            simp only
+            exact invH_getOne P T hw o name _ hinv h4 h2 hkw
+          | some inner =>
+            simp only
+            by_cases h5 : (facsOf T hw.w.regs o.cls).any (fun p => p.1 = inner) = true
+            · simp only [h5, Bool.not_true, Bool.false_eq_true, if_false]
+              cases hc : (cacheOf hw.w o).get? name (makeSubKey kw) with
+              | some _ => simpa using hself
+              | none =>
+                simp only
+                have i1 := invH_getOne P T hw o inner none hinv h4 h5 (fun _ => rfl)
+                have s1 := getOne_struct P T hw.w o inner none
+                exact invH_getOne P T { hw with w := (getOne P T hw.w o inner none).1 } o name _ i1
+                  (by show attached (getOne P T hw.w o inner none).1 o = true; rw [attached_congr s1]; exact h4)
+                  (by show (facsOf T (getOne P T hw.w o inner none).1.regs o.cls).any _ = true; rw [s1.regs]; exact h2) hkw
+            · simpa [h5] using hself
+        · simpa [h1, h2, h3, h4] using hself
+    · simpa [h1, h2] using hself
+  · simpa [h1] using hself
+
+/-- one direct `destroyRepresentation(nm)` followed by the read that caches it again -/
+def directOne (P : Params V) (T : Tables) (cid : Nat) (w : World V) (nm : String) : World V :=
+  if (facsOf T w.regs "Contour").any (fun p => p.1 = nm) && !acceptsKw nm then
+    (getOne P T (setCache w (.contour cid) ((cacheOf w (.contour cid)).destroyName nm)) (.contour cid) nm none).1
+  else w
+
+theorem invH_directFold (P : Params V) (T : Tables) (cid : Nat) (names : List String) :
+    ∀ (hx : HWorld V), InvH P T hx → attached hx.w (.contour cid) = true →
+      InvH P T { hx with w := names.foldl (directOne P T cid) hx.w } := by
+  induction names with
+  | nil => intro hx hi _; exact hi
+  | cons nm r ih =>
+    intro hx hi ha
+    simp only [List.foldl_cons]
+    unfold directOne
+    by_cases hr : ((facsOf T hx.w.regs "Contour").any (fun p => p.1 = nm) && !acceptsKw nm) = true
+    · simp only [hr, if_true]
+      simp only [Bool.and_eq_true, Bool.not_eq_true'] at hr
+      have i1 := invH_shrink P T hx (.contour cid) ((cacheOf hx.w (.contour cid)).destroyName nm) hi (by
+        intro n sk v hv
+        rw [Cache.get?_destroyName] at hv
+        by_cases e : nm = n
+        · simp [e] at hv
+        · simpa [e] using hv)
+      have i2 := invH_getOne P T { hx with w := setCache hx.w (.contour cid) ((cacheOf hx.w (.contour cid)).destroyName nm) }
+        (.contour cid) nm none i1 ha hr.1 (fun _ => rfl)
+      exact ih _ i2 (by
+        show attached (getOne P T _ (.contour cid) nm none).1 (.contour cid) = true
+        rw [attached_congr (getOne_struct P T _ _ _ _)]; exact ha)
+    · simp only [hr]
+      exact ih hx hi ha
+
+theorem directH_eq (P : Params V) (T : Tables) (hw0 : HWorld V) (w : World V) (cid : Nat) (meth : String) :
+    directH P T hw0 w (.cmut cid meth) =
+      if hw0.blk (.contour cid) && attached w (.contour cid) && (AL.get? contourMutators meth).isSome then
+        (directNames "Contour" meth).foldl (directOne P T cid) w
+      else w := rfl
+
+/-- the direct cache calls of a held contour's mutator keep `InvH` -/
+theorem invH_direct (P : Params V) (T : Tables) (hw0 hw : HWorld V) (op : Op) (hinv : InvH P T hw) :
+    InvH P T { hw with w := directH P T hw0 hw.w op } := by
+  have hself : InvH P T { hw with w := hw.w } := hinv
+  by_cases hop : ∃ cid meth, op = .cmut cid meth
+  · obtain ⟨cid, meth, rfl⟩ := hop
+    rw [directH_eq]
+    by_cases hc : (hw0.blk (.contour cid) && attached hw.w (.contour cid) && (AL.get? contourMutators meth).isSome) = true
+    · simp only [hc, if_true]
+      have hatt : attached hw.w (.contour cid) = true := by
+        simp only [Bool.and_eq_true] at hc; exact hc.1.2
+      exact invH_directFold P T cid _ hw hinv hatt
+    · simp only [hc]; exact hself
+  · have : directH P T hw0 hw.w op = hw.w := by
+      cases op <;> first | rfl | exact absurd ⟨_, _, rfl⟩ hop
+    rw [this]; exact hself
+
 end Repr
 end DefconModel
